@@ -38,8 +38,9 @@ def gen_owner_records(rng, curie_pool, uri_pool, n):
     return out
 
 
-ROTATIONS = (("parse_uri", "compress", "is_uri"), ("is_uri", "parse_uri", "compress"), ("compress", "is_uri", "parse_uri"))
-DERIVED_SITES = ("chain", "get_subconverter", "rewire", "remap_uri", "remap_curie")
+ROTATIONS = (("parse_uri", "compress", "is_uri"), ("is_uri", "parse_uri", "compress"), ("compress", "is_uri", "parse_uri"),
+             ("parse_uri", "is_uri", "compress"), ("is_uri", "compress", "parse_uri"), ("compress", "parse_uri", "is_uri"))
+DERIVED_SITES = ("chain", "get_subconverter", "rewire", "remap_uri", "remap_curie", "deepcopy", "pickle", "copy")
 
 
 class _NotARecord(ValueError):
@@ -59,7 +60,7 @@ class C01Machine(Machine):
         "bulk_via_ctor", "bulk_via_epm", "bulk_via_priority", "bulk_via_reverse", "large_owner_map", "derived_view_sub", "derived_view_chain_self", "derived_view_rewire", "derived_view_remap_uri",
         "derived_view_remap_curie", "record_with_pattern", "piece_with_pattern", "records_given_as_generator", "records_given_as_iterator",
         "records_given_as_dict_values", "records_given_as_tuple", "records_given_as_map", "more_than_256_uri_prefixes",
-        "flood_of_lookups_between_deliveries", "flood_of_more_than_2048_lookups", "flag_variants_on_miss_then_plain_again",
+        "flood_of_lookups_between_deliveries", "flood_of_more_than_2048_lookups", "flag_variants_on_miss_then_plain_again", "derived_view_deepcopy", "derived_view_pickle", "derived_view_copy",
     ]
 
     @classmethod
@@ -115,6 +116,7 @@ class C01Machine(Machine):
         self.conv = None
         self.owners = OwnerMap()
         self.names = {}           # CURIE prefix / synonym -> canonical CURIE prefix, as delivered (from Record objects)
+        self.route_of = {}        # URI prefix -> the route on which it was delivered
         self.delivered = []       # record dumps delivered so far (whole or in part)
         self.finals = []          # final answers per schedule
         if config.get("huge"):
@@ -277,6 +279,10 @@ class C01Machine(Machine):
         if rng.random() < 0.2:
             tail.append({"op": "derived_view", "kind": "chain_self", "schedule": k,
                          "case_sensitive": rng.random() < 0.5, "follow_up": rng.random() < 0.5})
+        if rng.random() < 0.2:
+            # a converter that went through the copy / pickle protocol (how one reaches a worker process)
+            tail.append({"op": "derived_view", "kind": rng.choice(["deepcopy", "pickle", "copy"]), "schedule": k,
+                         "follow_up": rng.random() < 0.5})
         if rng.random() < 0.25 and recs:
             # a converter produced by a reconciliation function: C01 must hold over ITS OWN records
             r0 = rng.choice(recs)
@@ -341,11 +347,12 @@ class C01Machine(Machine):
             yield c
 
     # ------------------------------------------------------------ execution
-    def _register(self, rec, owner=None):
+    def _register(self, rec, owner=None, route="record"):
         """Enter a delivered record into the owner map - from the Record OBJECT the library built from the
         caller's data (what a Record validator drops or normalises was never registered), not from the op."""
         for u in [rec.uri_prefix, *rec.uri_prefix_synonyms]:
             self.owners.register(u, rec.prefix if owner is None else owner)
+            self.route_of[u] = route
         for n in [rec.prefix, *rec.prefix_synonyms]:
             self.names.setdefault(n, rec.prefix if owner is None else owner)
 
@@ -364,6 +371,7 @@ class C01Machine(Machine):
         self.conv = None
         self.owners = OwnerMap()
         self.names = {}
+        self.route_of = {}
         self.flood = []
         self.schedule_no += 1
 
@@ -414,6 +422,31 @@ class C01Machine(Machine):
             except Exception:  # noqa: BLE001
                 memo[name] = True
         return memo[name]
+
+    def _route_drops(self, name, route):
+        """Does the ROUTE on which ``name`` was delivered leave it out also when it is the only thing
+        delivered to a converter without records (a sanitisation that lies in the submission, not in the
+        order or the company it arrived in)?"""
+        if route == "record":
+            return False          # (the Record class was asked already)
+        memo = self.__dict__.setdefault("_route_drops_memo", {})
+        key = (route, name)
+        if key not in memo:
+            C = self.curies.Converter
+            try:
+                if route == "add_prefix":
+                    e = C([])
+                    e.add_prefix("zzq", "zzq:", uri_prefix_synonyms=[name])
+                elif route == "epm":
+                    e = C.from_extended_prefix_map([{"prefix": "zzq", "uri_prefix": "zzq:", "uri_prefix_synonyms": [name]}])
+                elif route == "priority":
+                    e = C.from_priority_prefix_map({"zzq": ["zzq:", name]})
+                else:
+                    e = C.from_reverse_prefix_map({"zzq:": "zzq", name: "zzq"})
+                memo[key] = not any(name in [r.uri_prefix, *r.uri_prefix_synonyms] for r in e.records)
+            except Exception:  # noqa: BLE001
+                memo[key] = True
+        return memo[key]
 
     def _still_disjoint(self, objs, overlapping=False):
         """The generated owner map is strict-valid as DATA; the Record class may normalise names (case,
@@ -468,16 +501,16 @@ class C01Machine(Machine):
                 u = pool[i % len(pool)] + "f" + str(i // len(pool))
                 flood.append(u)
                 want = owners.parse(u)
-                which = i % 3
-                if which == 0:
-                    got, exp = observe.call(conv.parse_uri, u, return_none=True), ["ok", None if want is None else [want[0], want[1]]]
-                elif which == 1:
-                    got, exp = observe.call(conv.is_uri, u), ["ok", want is not None]
-                else:
-                    got, exp = observe.call(conv.compress, u), ["ok", None if want is None else want[0] + conv.delimiter + want[1]]
-                if got != exp:
-                    raise Violation(PROP, ("parse_uri", "is_uri", "compress")[which] + "_mismatch", "flood of lookups",
-                                    {"uri": u, "got": got, "expected": exp, "nth_lookup": i})
+                for name in ROTATIONS[i % 6]:          # every flood string through all three methods
+                    if name == "parse_uri":
+                        got, exp = observe.call(conv.parse_uri, u, return_none=True), ["ok", None if want is None else [want[0], want[1]]]
+                    elif name == "is_uri":
+                        got, exp = observe.call(conv.is_uri, u), ["ok", want is not None]
+                    else:
+                        got, exp = observe.call(conv.compress, u), ["ok", None if want is None else want[0] + conv.delimiter + want[1]]
+                    if got != exp:
+                        raise Violation(PROP, name + "_mismatch", "flood of lookups",
+                                        {"uri": u, "got": got, "expected": exp, "nth_lookup": i})
             # a spread of the flood (old and recent strings) is asked again after every later delivery
             step = max(1, len(flood) // 40)
             self.flood = list(dict.fromkeys(flood[::step] + flood[:6] + flood[-6:]))
@@ -501,6 +534,24 @@ class C01Machine(Machine):
                     for u in [r.uri_prefix, *r.uri_prefix_synonyms]:
                         owners.register(u, r.prefix)
                 site = "get_subconverter"
+            elif op["kind"] in ("deepcopy", "pickle", "copy"):
+                import pickle
+
+                try:
+                    if op["kind"] == "deepcopy":
+                        derived = copy.deepcopy(base)
+                    elif op["kind"] == "copy":
+                        derived = base.model_copy(deep=True) if hasattr(base, "model_copy") else copy.deepcopy(base)
+                    else:
+                        derived = pickle.loads(pickle.dumps(base))
+                except Exception:  # noqa: BLE001 - whether a converter can be copied / pickled at all is not C01's business
+                    self.event("derived_view_rejected")
+                    return {"derived_view": op["kind"], "raised": True}
+                owners = OwnerMap()
+                for r in derived.records:
+                    for u in [r.uri_prefix, *r.uri_prefix_synonyms]:
+                        owners.register(u, r.prefix)
+                site = op["kind"]
             elif op["kind"] == "chain_self":
                 try:
                     derived = c.chain([base], case_sensitive=op.get("case_sensitive", True))
@@ -592,7 +643,7 @@ class C01Machine(Machine):
             # the delimiter the converter was GIVEN (remembered here, not read back from the object)
             self.delimiter_given = delim
             for o in objs:
-                self._register(o)
+                self._register(o, route={"epm": "epm", "priority": "priority", "reverse": "reverse"}.get(via, "record"))
             self.event("ctor")
             self.probe("bulk_via_" + via)
         elif kind == "chain_parts":
@@ -631,9 +682,14 @@ class C01Machine(Machine):
             self.observed_now = observed
             self.focus = [u + "1" for u in new_uris[-2:]][::-1] if observed else []
             for f in reversed(self.focus):
-                observe.call(conv.is_uri, f)
-                observe.call(conv.compress, f)
-                observe.call(conv.parse_uri, f, return_none=True)
+                # (the last lookups before the call: their order rotates as well)
+                for name in ROTATIONS[(self.n_deliveries + 3) % 6]:
+                    if name == "is_uri":
+                        observe.call(conv.is_uri, f)
+                    elif name == "compress":
+                        observe.call(conv.compress, f)
+                    else:
+                        observe.call(conv.parse_uri, f, return_none=True)
             if kind in ("add_record", "add_prefix"):
                 r = op["record"]
                 site = "Converter." + kind
@@ -646,7 +702,7 @@ class C01Machine(Machine):
                     obj = Record(**dict(r, pattern=None))          # (pre-flight: see _mk)
                     conv.add_prefix(r["prefix"], r["uri_prefix"], prefix_synonyms=list(r["prefix_synonyms"]),
                                     uri_prefix_synonyms=list(r["uri_prefix_synonyms"]))
-                self._register(obj)
+                self._register(obj, route="record" if kind == "add_record" else "add_prefix")
                 self.event(kind)
                 self.saw_incremental = True
             elif kind == "merge_piece":
@@ -689,7 +745,7 @@ class C01Machine(Machine):
                     piece = Record(prefix=pr, uri_prefix=up, uri_prefix_synonyms=list(ups))
                     conv.add_prefix(pr, up, uri_prefix_synonyms=ups, merge=True)
                 # every URI prefix the piece Record holds now belongs to the record it was merged into
-                self._register(piece, owner=op["prefix"])
+                self._register(piece, owner=op["prefix"], route="record" if op["via"] == "add_record" else "add_prefix")
                 self.probe("split_delivery")
                 self.event("merge_piece")
                 self.saw_incremental = True
@@ -721,7 +777,7 @@ class C01Machine(Machine):
                     # accepted although it matches an existing record: that is C05's business;
                     # here the submission then simply counts as delivered
                     self.event("dup_accepted")
-                    self._register(dobj)
+                    self._register(dobj, route="record" if op["via"] == "add_record" else "add_prefix")
                 after = self._answers() if self.observed_now else None
                 if rejected and self.observed_now and after != before:
                     raise Violation(PROP, "answers_changed_by_rejected_duplicate", site,
@@ -782,7 +838,8 @@ class C01Machine(Machine):
             for u in [r.uri_prefix, *r.uri_prefix_synonyms]:
                 rec_map.setdefault(u, r.prefix)
         if rec_map != owners.owners:
-            lost = [u for u in owners.owners if u not in rec_map and not self._record_class_drops(u)]
+            lost = [u for u in owners.owners if u not in rec_map and not self._record_class_drops(u)
+                    and not self._route_drops(u, self.route_of.get(u, "record"))]
             if lost:
                 self.event("delivered_uri_prefix_missing_from_records")
             else:
@@ -794,7 +851,7 @@ class C01Machine(Machine):
         if len(owners.owners) > 256:
             self.probe("more_than_256_uri_prefixes")
         delim = conv.delimiter
-        if self.delimiter_given is not None and site not in ("chain", "get_subconverter", "rewire", "remap_uri", "remap_curie"):
+        if self.delimiter_given is not None and site not in DERIVED_SITES:
             # a converter must keep the delimiter it was constructed with through every incremental add
             # (derived views are built with the default delimiter by the library: not judged here)
             delim = self.delimiter_given
@@ -827,7 +884,7 @@ class C01Machine(Machine):
                 self.probe("probe_one_short")
             # the three observables are asked in an order that rotates from one look to the next: WHICH of them
             # meets a new state first must not matter
-            order = ROTATIONS[self.n_looks % 3]
+            order = ROTATIONS[(self.n_looks + self.n_probe_checks) % 6]
             raw = {}
             for name in order:
                 if name == "parse_uri":
